@@ -59,6 +59,28 @@ def add_group_queries(tc, rng, dump, nq=4):
         tc.queries.append("ep %d %d %d" % (l, g, p))
 
 
+def moves(tc, rng):
+    """displacements of a random subset (possibly empty, possibly all): near moves, far moves, onto faces, into one leaf"""
+    out = []
+    lim = 16 << (tc.H - 1)
+    kind = rng.below(5)
+    if kind == 0:
+        return out
+    ids = [i for i in range(tc.N) if kind == 4 or rng.below(3) == 0] or [rng.below(tc.N)]
+    target = [rng.below(lim) for _ in range(tc.d)]
+    for i in ids[:60]:
+        if kind == 1:
+            new = [min(lim, max(0, x + rng.range(-20, 20))) for x in tc.nums[i]]
+        elif kind == 2:
+            new = [rng.below(lim + 1) for _ in range(tc.d)]
+        elif kind == 3:
+            new = [rng.choice([0, lim, 16 * rng.below(lim // 16)]) for _ in range(tc.d)]
+        else:
+            new = [min(lim, (x // 16) * 16 + rng.below(16)) for x in target]
+        out.append("mv %d %s" % (i, " ".join(map(str, new))))
+    return out
+
+
 def run_tree_property(pid, prop_file, tier, seed, want):
     """want: set of {'structure','placement','data','lookup'}"""
     rep = vlib.Report(pid, tier, seed, "proof")
@@ -98,6 +120,15 @@ def run_tree_property(pid, prop_file, tier, seed, want):
         if "data" in want:
             for tc in cases:
                 tc.queries += ["data", "zero"]
+        if "export" in want:
+            for tc in cases:
+                r = rng.below(3)
+                tc.queries += ["setrhs", "export"] if r == 0 else (["setrhs"] + moves(tc, rng) + ["rebuild", "export"] if r == 1 else ["setrhs", "export"] + moves(tc, rng) + ["rebuild", "export", "data"])
+        if "rebuild" in want:
+            for tc in cases:
+                tc.queries += ["setrhs"]
+                for cyc in range(rng.range(1, 3)):
+                    tc.queries += moves(tc, rng) + ["rebuild", "data", "zero"]
         texts = [tc.text() for tc in cases]
 
         def canon(c, line):
@@ -107,6 +138,10 @@ def run_tree_property(pid, prop_file, tier, seed, want):
             out = [parts[0]]
             for q, r in zip(tcq, parts[1:]):
                 out.append("-" if q.split()[0] in ("data", "zero", "cv") else r)
+            return out
+
+        def canon_unused(c, line):
+            out = []
             return out
 
         def oracle(c, line):
@@ -122,13 +157,33 @@ def run_tree_property(pid, prop_file, tier, seed, want):
             if "placement" in want:
                 m = T.oracle_placement(tc, dump)
                 if m: return "placement: " + m
+            cur = T.TreeCase(tc.d, tc.per, tc.H, tc.B, tc.mode, [list(p) for p in tc.nums])
+            rhs_set = False
             for q, r in zip(tc.queries, parts[1:]):
-                k = q.split()[0]
-                if k == "data" and "data" in want:
-                    m = T.oracle_data(tc, r)
+                qt = q.split()
+                k = qt[0]
+                if k == "setrhs":
+                    rhs_set = True
+                elif k == "mv":
+                    cur.nums[int(qt[1])] = [int(x) for x in qt[2:2 + tc.d]]
+                    if r.strip() != "moved=1": return "move: " + r
+                elif k == "rebuild":
+                    try:
+                        dump = T.parse_dump(r)
+                    except Exception as e:
+                        return "unparsable dump after rebuild: %s" % e
+                    m = T.oracle_structure(cur, dump)
+                    if m: return "rebuild structure: " + m
+                    m = T.oracle_placement(cur, dump)
+                    if m: return "rebuild placement: " + m
+                elif k == "data" and ("data" in want or "rebuild" in want):
+                    m = T.oracle_data(cur, r, rhs_set)
                     if m: return "data: " + m
-                elif k == "zero" and "data" in want:
-                    if r.strip() != "nonzero=0": return "cells not zero-initialised: " + r
+                elif k == "zero" and ("data" in want or "rebuild" in want):
+                    if r.strip() != "nonzero=0": return "cells not zero: " + r
+                elif k == "export" and "export" in want:
+                    m = T.oracle_export(cur, r)
+                    if m: return "export: " + m
                 elif "lookup" in want and k in ("fc", "fl", "ei", "ep", "li"):
                     m = T.oracle_lookup(tc, dump, q, r)
                     if m: return "lookup: " + m
